@@ -626,7 +626,27 @@ two(x,z) <-- r(x,y), r(y,z), if x < z;
 """
 
 
+def _ds_order(provider):
+    # arrival-order family: one fact per iteration for up to 7 iterations; the harness feeds every permutation of the
+    # arrival order of fixed pair sets (union-find and closure maintenance depend on the order in which classes merge)
+    return f"""
+rel sched(int,int,int) input; rel never() input; rel step(int);
+rel r(int,int) ds {provider};
+rel iff(int,int); rel ibf(int,int); rel off(int,int);
+step(0);
+step(i + 1) <-- step(i), if i < 6;
+step(0) <-- r(_,_), never();
+r(x,y) <-- step(i), sched(i,x,y);
+iff(x,y) <-- r(x,y);
+r(x,y) <-- iff(x,y), never();
+ibf(x,y) <-- sched(_,x,_), r(x,y);
+r(x,y) <-- ibf(x,y), never();
+off(x,y) <-- r(x,y);
+"""
+
+
 for _prov, _tag in (("eqrel", "ds10"), ("trrel", "ds11"), ("trrel_uf", "ds12")):
+    prog(f"{_prov}_order", _ds_order(_prov), f"ds {_tag} order" + (" par" if _prov == "eqrel" else ""), bound=1, dom=2)
     prog(f"{_prov}_bin", _ds_binary(_prov), f"ds {_tag}" + (" par" if _prov == "eqrel" else ""), bound=3, dom=3)
     prog(f"{_prov}_tern", _ds_ternary(_prov), f"ds {_tag}", bound=2, dom=3)
     prog(f"{_prov}_plain", _ds_plain(_prov), f"ds {_tag}" + (" par" if _prov == "eqrel" else ""), bound=3, dom=3)
